@@ -12,7 +12,7 @@ for f in ("patch.diff", "demo.py", "notes.md"):
         shutil.copy(os.path.join(src, f), os.path.join(dst, f))
 log = ""
 if os.path.exists(os.path.join(src, "try.log")):
-    log = open(os.path.join(src, "try.log")).read()
+    log = open(os.path.join(src, "try.log"), errors="replace").read()
 suite = re.search(r"^\d+ failed, \d+ passed.*$", log, re.M)
 rcs = re.findall(r"^rc=(\d+)", log, re.M)
 files = sorted(set(re.findall(r"^diff --git a/(\S+)", open(os.path.join(dst, "patch.diff")).read(), re.M)))
